@@ -537,7 +537,7 @@ fn index_set(mut left: Object, index: Object, value: Object) -> Result<Object, E
     }
     match left.tag() {
         Type::Array => index_set_array(left.as_vec_mut(), index.as_int(), value)?,
-        Type::String => index_set_string(left.as_string_mut(), index.as_int(), value)?,
+        Type::String => index_set_string(left, index.as_int(), value)?,
         _ => {
             return Err(Error::TypeError(format!(
                 "kan niet indexeren in objecten van type {}",
@@ -563,7 +563,15 @@ fn index_set_array(array: &mut Vec<Object>, mut index: isize, value: Object) -> 
     Ok(())
 }
 
-fn index_set_string(string: &mut String, mut index: isize, value: Object) -> Result<(), Error> {
+fn index_set_string(mut target: Object, mut index: isize, value: Object) -> Result<(), Error> {
+    // the new text can be the string that is being modified (s[0] = s): copy it before borrowing the target mutably
+    let replacement = if value.tag() == Type::String {
+        Some(value.as_str().to_owned())
+    } else {
+        None
+    };
+    let string = target.as_string_mut();
+
     let strlen = string.chars().count();
     if index < 0 {
         index += strlen as isize;
@@ -575,20 +583,21 @@ fn index_set_string(string: &mut String, mut index: isize, value: Object) -> Res
         ));
     }
 
-    if value.tag() != Type::String {
-        return Err(Error::TypeError(
-            "kan geen niet-string invoegen op string object".to_string(),
-        ));
-    }
+    let replacement = match &replacement {
+        Some(replacement) => replacement.as_str(),
+        None => {
+            return Err(Error::TypeError(
+                "kan geen niet-string invoegen op string object".to_string(),
+            ))
+        }
+    };
 
-    string.replace_range(
-        string
-            .char_indices()
-            .nth(index)
-            .map(|(pos, ch)| (pos..pos + ch.len_utf8()))
-            .unwrap(),
-        value.as_str(),
-    );
+    let range = string
+        .char_indices()
+        .nth(index)
+        .map(|(pos, ch)| (pos..pos + ch.len_utf8()))
+        .unwrap();
+    string.replace_range(range, replacement);
 
     Ok(())
 }
